@@ -46,21 +46,101 @@ def _v2type(t):
     return None if t == "any" else ElectrumV2MnemonicTypes[t]
 
 
+KEPT = {}      # generator objects kept for the whole run, one per (class, constructor arguments): the "object used before" route
+
+
+def _routes(label, routes):
+    """every documented route to one result: all must give the same answer, or all must refuse with the same error class"""
+    from harness.canon import exc_kind
+    outs = []
+    for name, f in routes:
+        try:
+            outs.append((name, f()))
+        except Exception as ex:  # noqa
+            outs.append((name, "!" + exc_kind(ex)))
+    if len({o for _, o in outs}) != 1:
+        return "ARGUMENT-FORM-DEPENDENT " + label + ": " + " | ".join("%s: %s" % (n, str(o)[:100]) for n, o in outs)
+    if outs[0][1].startswith("!"):
+        routes[0][1]()          # re-raise for the caller's error classification
+    return outs[0][1]
+
+
+def _kept(cls, *a):
+    k = (cls.__name__,) + tuple(str(x) for x in a)
+    if k not in KEPT:
+        KEPT[k] = cls(*a)
+    return KEPT[k]
+
+
+def _bip39enc(l, e):
+    from bip_utils import Bip39MnemonicGenerator
+    lang, ent = Bip39Languages[l], unhx(e)
+    return _routes("BIP-39 encode", [("Encoder.Encode", lambda: tx(Bip39MnemonicEncoder(lang).Encode(ent).ToStr())),
+                                    ("Generator.FromEntropy", lambda: tx(Bip39MnemonicGenerator(lang).FromEntropy(ent).ToStr())),
+                                    ("kept Generator.FromEntropy", lambda: tx(_kept(Bip39MnemonicGenerator, lang).FromEntropy(ent).ToStr())),
+                                    ("kept Encoder.Encode", lambda: tx(_kept(Bip39MnemonicEncoder, lang).Encode(ent).ToStr()))])
+
+
+def _monenc_routes(l, e, ck):
+    from bip_utils import MoneroMnemonicGenerator
+    lang, ent = MoneroLanguages[l], unhx(e)
+    if ck == "1":
+        return _routes("Monero encode", [("Encoder", lambda: _monenc(l, e, ck)),
+                                         ("Generator", lambda: tx(MoneroMnemonicGenerator(lang).FromEntropyWithChecksum(ent).ToStr())),
+                                         ("kept Generator", lambda: tx(_kept(MoneroMnemonicGenerator, lang).FromEntropyWithChecksum(ent).ToStr()))])
+    return _routes("Monero encode", [("Encoder", lambda: _monenc(l, e, ck)),
+                                     ("Generator", lambda: tx(MoneroMnemonicGenerator(lang).FromEntropyNoChecksum(ent).ToStr())),
+                                     ("kept Generator", lambda: tx(_kept(MoneroMnemonicGenerator, lang).FromEntropyNoChecksum(ent).ToStr()))])
+
+
+def _algoenc(e):
+    from bip_utils import AlgorandMnemonicGenerator
+    ent = unhx(e)
+    return _routes("Algorand encode", [("Encoder", lambda: tx(AlgorandMnemonicEncoder().Encode(ent).ToStr())),
+                                       ("Generator", lambda: tx(AlgorandMnemonicGenerator().FromEntropy(ent).ToStr())),
+                                       ("kept Generator", lambda: tx(_kept(AlgorandMnemonicGenerator).FromEntropy(ent).ToStr()))])
+
+
+def _ev1enc(e):
+    from bip_utils import ElectrumV1MnemonicGenerator
+    ent = unhx(e)
+    return _routes("Electrum v1 encode", [("Encoder", lambda: tx(ElectrumV1MnemonicEncoder().Encode(ent).ToStr())),
+                                          ("Generator", lambda: tx(ElectrumV1MnemonicGenerator().FromEntropy(ent).ToStr())),
+                                          ("kept Generator", lambda: tx(_kept(ElectrumV1MnemonicGenerator).FromEntropy(ent).ToStr()))])
+
+
+def _ev2enc(l, t, e):
+    # (ElectrumV2MnemonicGenerator.FromEntropy is documented to search upward from the given entropy for a value whose sentence carries
+    # the version prefix, so it is not another route to Encode's answer; only fresh-vs-kept encoder objects are compared)
+    lang, ty, ent = ElectrumV2Languages[l], ElectrumV2MnemonicTypes[t], unhx(e)
+    return _routes("Electrum v2 encode", [("Encoder", lambda: tx(ElectrumV2MnemonicEncoder(ty, lang).Encode(ent).ToStr())),
+                                          ("kept Encoder", lambda: tx(_kept(ElectrumV2MnemonicEncoder, ty, lang).Encode(ent).ToStr()))])
+
+
+def _seed_routes(label, mk, salt):
+    """a fresh generator asked once, and one generator object asked first for ANOTHER passphrase and then for this one"""
+    def second_call():
+        g = mk()
+        g.Generate(PASS[salt] + "\u00a0other")
+        return hx(g.Generate(PASS[salt]))
+    return _routes(label, [("fresh object", lambda: hx(mk().Generate(PASS[salt]))), ("second call on one object", second_call)])
+
+
 IMPL = {
-    "bip39enc": lambda l, e: tx(Bip39MnemonicEncoder(Bip39Languages[l]).Encode(unhx(e)).ToStr()),
+    "bip39enc": _bip39enc,
     "bip39dec": _bip39dec,
-    "bip39seed": lambda l, s, o, salt: hx(Bip39SeedGenerator(untx(s), _lang(Bip39Languages, l)).Generate(PASS[salt])),
-    "subseed": lambda l, s, o, salt: hx(SubstrateBip39SeedGenerator(untx(s), _lang(Bip39Languages, l)).Generate(PASS[salt])),
-    "monenc": _monenc,
+    "bip39seed": lambda l, s, o, salt: _seed_routes("BIP-39 seed", lambda: Bip39SeedGenerator(untx(s), _lang(Bip39Languages, l)), salt),
+    "subseed": lambda l, s, o, salt: _seed_routes("Substrate seed", lambda: SubstrateBip39SeedGenerator(untx(s), _lang(Bip39Languages, l)), salt),
+    "monenc": _monenc_routes,
     "mondec": lambda l, s: hx(MoneroMnemonicDecoder(_lang(MoneroLanguages, l)).Decode(untx(s))),
-    "algoenc": lambda e: tx(AlgorandMnemonicEncoder().Encode(unhx(e)).ToStr()),
+    "algoenc": _algoenc,
     "algodec": lambda l, s, o: hx(AlgorandMnemonicDecoder(_lang(AlgorandLanguages, l)).Decode(untx(s))),
-    "ev1enc": lambda e: tx(ElectrumV1MnemonicEncoder().Encode(unhx(e)).ToStr()),
+    "ev1enc": _ev1enc,
     "ev1dec": lambda s, o: hx(ElectrumV1MnemonicDecoder().Decode(untx(s))),
     "ev1seed": lambda s, o: hx(ElectrumV1SeedGenerator(untx(s)).Generate()),
-    "ev2enc": lambda l, t, e: tx(ElectrumV2MnemonicEncoder(ElectrumV2MnemonicTypes[t], ElectrumV2Languages[l]).Encode(unhx(e)).ToStr()),
+    "ev2enc": _ev2enc,
     "ev2dec": lambda l, t, s, o: hx(ElectrumV2MnemonicDecoder(_v2type(t), _lang(ElectrumV2Languages, l)).Decode(untx(s))),
-    "ev2seed": lambda l, s, o, salt: hx(ElectrumV2SeedGenerator(untx(s), _lang(ElectrumV2Languages, l)).Generate(PASS[salt])),
+    "ev2seed": lambda l, s, o, salt: _seed_routes("Electrum v2 seed", lambda: ElectrumV2SeedGenerator(untx(s), _lang(ElectrumV2Languages, l)), salt),
 }
 # the seed ops receive NFKD(salt) (what the model needs); the passphrase itself is kept here, keyed by that field
 PASS = {}
